@@ -459,12 +459,16 @@ def check_r123(fx, rep):
             F.loc(node["span"]),
             "the packed-encoding lift does not reject spans that end beyond WORD_SIZE_BITS",
         )
-    # merge of two packed types: boundaries sorted + unique
+    check_merge_boundaries(fx, rep, "R12.3")
+
+
+def check_merge_boundaries(fx, rep, rule):
+    """Merged packed types take their spans from a sorted, de-duplicated boundary list (so every derived span has end > start)."""
     merge = None
     for b in fx.fn_bodies():
         if F.strip_generics(b["def"]) == "tc::unification::merge":
             merge = b
-    if rep.anchor("R12.3", merge is not None, "tc::unification::merge"):
+    if rep.anchor(rule, merge is not None, "tc::unification::merge"):
         te = "tc::expression::TypeExpression"
         for m, ps in F.exprs(merge["hir"]["value"], "Match"):
             for arm in m["arms"]:
@@ -472,9 +476,9 @@ def check_r123(fx, rep):
                 if p.get("p") == "Tuple" and len(p["pats"]) == 2:
                     vs = [F.pat_variants(x) for x in p["pats"]]
                     if vs[0] == {(te, "Packed")} and vs[1] == {(te, "Packed")}:
-                        names = [(F.callee_def(c) or "").split("::")[-1] for c, _ in F.calls(arm["body"])]
+                        names = [F.strip_generics(F.callee_def(c) or "").split("::")[-1] for c, _ in F.calls(arm["body"])]
                         ok = ("sorted" in names or "sort" in names or "sort_unstable" in names) and ("unique" in names or "dedup" in names)
-                        rep.oblige(ok, "R12.3", "merge-boundaries", F.loc(arm["span"]), "merging two packed types no longer derives its spans from a sorted, de-duplicated boundary list: spans may overlap or be unordered", sample={"rule": "R12.3", "arm": "Packed x Packed", "calls": sorted(set(names) & {"sorted", "unique", "sort", "dedup"})})
+                        rep.oblige(ok, rule, "merge-boundaries", F.loc(arm["span"]), "merging two packed types no longer derives its spans from a sorted, de-duplicated boundary list: derived spans may overlap, be unordered or have end < start (underflow in `end - start`)", sample={"rule": rule, "arm": "Packed x Packed", "calls": sorted(set(names) & {"sorted", "unique", "sort", "dedup", "merge"})})
 
 
 def check(fx, rep, tier):
